@@ -155,22 +155,44 @@ def descriptor_macro(rep, ctx, disagreements, monitor_failures):
     tid = itertools.count(1)
     n = 60 if ctx["tier"] == "quick" else 400
     for i in range(n):
-        nodes = [Node(0, "m", None, "compound"), Node(1, "a", 0, "compound"), Node(2, "ab", 1, "atomic"), Node(3, "a", 1, "atomic")]
-        nodes[0].children = [1]; nodes[1].children = [2, 3]; nodes[0].initial = 1; nodes[1].initial = 2
+        if i % 3 == 2:
+            # a parallel state shared by two active leaves: a null transition on it (or on a region) must hide the handlers above
+            # it for EVERY leaf of the step, not only for the first one that walks through it
+            nodes = [Node(0, "m", None, "compound"), Node(1, "p", 0, "parallel"), Node(2, "r1", 1, "compound"), Node(3, "a", 2, "atomic"),
+                     Node(4, "r2", 1, "compound"), Node(5, "a", 4, "atomic")]
+            nodes[0].children = [1]; nodes[1].children = [2, 4]; nodes[2].children = [3]; nodes[4].children = [5]
+            nodes[0].initial = 1; nodes[2].initial = 3; nodes[4].initial = 5
+            walk = (3, 5, 2, 4, 1, 0)
+        else:
+            nodes = [Node(0, "m", None, "compound"), Node(1, "a", 0, "compound"), Node(2, "ab", 1, "atomic"), Node(3, "a", 1, "atomic")]
+            nodes[0].children = [1]; nodes[1].children = [2, 3]; nodes[0].initial = 1; nodes[1].initial = 2
+            walk = (2, 1, 0)
         am = AM(nodes, max_iter=5)
-        for s in (2, 1, 0):
+        for s in walk:
             ks = rng.choice(keysets)
             for k in ks:
-                if rng.random() < 0.12:
+                if rng.random() < (0.3 if (len(walk) > 3 and s in (1, 2)) else 0.12):
                     nodes[s].on.append((k, [Trans(next(tid), s, k, None, forbidden=True)]))
                 else:
                     g = ("ge", 0, rng.randint(0, 1)) if rng.random() < 0.3 else None
                     nodes[s].on.append((k, [Trans(next(tid), s, k, None, guard=g, actions=[("mark", next(mark))])]))
-        runs = [({0: v}, [(e, "plain", j + 1) for j, e in enumerate(rng.sample(events, 4))]) for v in (0, 1)]
+        must = []
+        if len(walk) > 3 and rng.random() < 0.7:
+            # directed: the shared ancestor (the parallel state or one region) forbids an event that the root handles
+            e0 = rng.choice(["a", "a.b", "a.b.c", "b"])
+            where = rng.choice([1, 1, 2])
+            nodes[where].on = [(k, ts) for k, ts in nodes[where].on if k != e0]
+            nodes[where].on.insert(0, (e0, [Trans(next(tid), where, e0, None, forbidden=True)]))
+            if not any(k in (e0, "*") for k, _ in nodes[0].on):
+                k0 = rng.choice([e0, "*"])
+                nodes[0].on.append((k0, [Trans(next(tid), 0, k0, None, actions=[("mark", next(mark))])]))
+            must = [e0]
+        runs = [({0: v}, [(e, "plain", j + 1) for j, e in enumerate(must + rng.sample(events, 4 - len(must)))]) for v in (0, 1)]
         cases.append((am, ("sync", "async")[i % 2], runs, dict(probe_can=True)))
     dis, fails, stats = common.run_macro_property(
         rep, ctx, "c20_descriptors", cases, monitor,
-        "3-level chains whose states carry descriptor key sets (exact/partial/wildcard/internal-looking, some forbidden, some guarded)")
+        "3-level chains, and (every third machine) a parallel state with two regions, whose states carry descriptor key sets "
+        "(exact/partial/wildcard/internal-looking, some forbidden - also on the ancestor shared by both active leaves -, some guarded)")
     disagreements += dis
     monitor_failures += fails
     return stats
